@@ -138,6 +138,8 @@ class ModuleTables:
             it = self.ev(g.iter)
             if isinstance(it, dict):
                 it = list(it)
+            if isinstance(it, str):
+                it = list(it)
             if isinstance(it, (list, tuple, set)) and not isinstance(it, Opaque):
                 out = {} if isinstance(n, ast.DictComp) else []
                 saved = dict(self.env)
@@ -205,6 +207,10 @@ class ModuleTables:
                         return _opaque(n)
                     parts.append(str(x))
             return ''.join(parts)
+        if isinstance(n, ast.Attribute) and isinstance(n.value, ast.Name) and n.value.id == 'string' \
+                and n.attr in ('ascii_lowercase', 'ascii_uppercase', 'digits'):
+            import string as _string
+            return getattr(_string, n.attr)
         if isinstance(n, ast.Attribute):
             base = self.ev(n.value)
             if isinstance(base, tuple) and len(base) == 2 and base[0] == 'cls' and n.attr == '__name__':
